@@ -246,3 +246,93 @@ Proof.
   destruct (v =? 1) eqn:E1; [right; left; split; [lia | reflexivity]|].
   right; right; split; [lia | reflexivity].
 Qed.
+
+(* ---------- histories of calls on one instance ---------- *)
+
+Lemma gos_result_depends own c1 c2 node e :
+  c1 node = c2 node -> fst (get_or_store own c1 node e) = fst (get_or_store own c2 node e).
+Proof.
+  intros H. unfold get_or_store. rewrite H. destruct (c2 node); [reflexivity|].
+  destruct e; [destruct (idx own 0) | | destruct (find_biggest_same own l)]; reflexivity.
+Qed.
+
+Lemma gos_cache_other own c node e n : n <> node -> snd (get_or_store own c node e) n = c n.
+Proof.
+  intros H. unfold get_or_store. destruct (c node); [reflexivity|].
+  assert (F : (n =? node) = false) by now apply N.eqb_neq.
+  destruct e; [destruct (idx own 0) | | destruct (find_biggest_same own l)]; cbn [snd]; unfold vcache_set; try rewrite F; reflexivity.
+Qed.
+
+Lemma gos_history_cache_other own : forall steps c n,
+  ~ In n (map fst steps) -> snd (gos_history own c steps) n = c n.
+Proof.
+  induction steps as [|[node e] r IH]; intros c n H; [reflexivity|]. cbn [gos_history].
+  destruct (get_or_store own c node e) as [x c1] eqn:E. destruct (gos_history own c1 r) as [xs c2] eqn:E2. cbn [snd].
+  cbn [map fst In] in H. assert (n <> node) by (intros ->; apply H; now left).
+  assert (~ In n (map fst r)) by (intros X; apply H; now right).
+  pose proof (IH c1 n H1) as I. rewrite E2 in I. cbn [snd] in I. rewrite I.
+  pose proof (gos_cache_other own c node e n H0) as G. rewrite E in G. exact G.
+Qed.
+
+Lemma gos_history_app own : forall s1 s2 c,
+  gos_history own c (s1 ++ s2) =
+  (fst (gos_history own c s1) ++ fst (gos_history own (snd (gos_history own c s1)) s2),
+   snd (gos_history own (snd (gos_history own c s1)) s2)).
+Proof.
+  induction s1 as [|[node e] r IH]; intros s2 c; cbn [app gos_history fst snd].
+  - destruct (gos_history own c s2); reflexivity.
+  - destruct (get_or_store own c node e) as [x c1]. rewrite IH.
+    destruct (gos_history own c1 r) as [xs c2]. cbn [fst snd]. reflexivity.
+Qed.
+
+(* Frame property: what a call answers about a peer that no earlier call of the history was about does not depend on the
+   history at all - it is the first-contact answer.  (Earlier calls act only through the cache entry of THEIR peer; the
+   own version list is the same argument in every call.) *)
+Theorem history_fresh_peer own c pre node e :
+  ~ In node (map fst pre) ->
+  fst (gos_history own c (pre ++ [(node, e)])) =
+  fst (gos_history own c pre) ++ [fst (get_or_store own c node e)].
+Proof.
+  intros H. rewrite gos_history_app. cbn [fst gos_history].
+  set (c' := snd (gos_history own c pre)).
+  assert (E : c' node = c node) by (apply gos_history_cache_other; assumption).
+  destruct (get_or_store own c' node e) as [x c1] eqn:G. cbn [fst]. f_equal. f_equal.
+  pose proof (gos_result_depends own c' c node e E) as D. rewrite G in D. exact D.
+Qed.
+
+(* in particular the base version handed to peers without a `pv` entry never changes during the life of the instance *)
+Theorem history_base_stable own v0 rest c pre node :
+  own = v0 :: rest -> c node = None -> ~ In node (map fst pre) ->
+  fst (gos_history own c (pre ++ [(node, PvMissing)])) = fst (gos_history own c pre) ++ [Ok v0].
+Proof.
+  intros E C H. rewrite (history_fresh_peer own c pre node PvMissing H).
+  rewrite (gos_missing own c node v0 rest C E). reflexivity.
+Qed.
+
+(* and a peer that was already asked about gets the cached answer again, whatever happened in between *)
+Theorem history_cached_peer own c pre mid node e v :
+  fst (get_or_store own (snd (gos_history own c pre)) node e) = Ok v ->
+  ~ In node (map fst mid) ->
+  forall e', fst (gos_history own c (pre ++ (node, e) :: mid ++ [(node, e')])) =
+             fst (gos_history own c (pre ++ (node, e) :: mid)) ++ [Ok v].
+Proof.
+  intros H M e'. replace (pre ++ (node, e) :: mid ++ [(node, e')]) with ((pre ++ (node, e) :: mid) ++ [(node, e')])
+    by (rewrite <- app_assoc; reflexivity).
+  rewrite gos_history_app. cbn [fst gos_history].
+  set (c2 := snd (gos_history own c (pre ++ (node, e) :: mid))).
+  assert (S : c2 node = Some v).
+  { unfold c2. rewrite gos_history_app. cbn [snd gos_history].
+    set (c0 := snd (gos_history own c pre)) in *.
+    destruct (get_or_store own c0 node e) as [x c1] eqn:G. cbn [fst] in H. subst x.
+    destruct (gos_history own c1 mid) as [xs c3] eqn:G2. cbn [snd].
+    pose proof (gos_history_cache_other own mid c1 node M) as O. rewrite G2 in O. cbn [snd] in O. rewrite O.
+    pose proof (second_call_after_ok own c0 node e v) as T. rewrite G in T. specialize (T eq_refl).
+    unfold get_twice in T. rewrite G in T. destruct (get_or_store own c1 node e) as [r2 c4] eqn:G3.
+    unfold get_or_store in G3. destruct (c1 node) as [w|] eqn:W.
+    - inversion G3; subst. inversion T; subst. reflexivity.
+    - exfalso. unfold get_or_store in G. destruct (c0 node) as [w0|] eqn:W0.
+      + inversion G; subst. congruence.
+      + destruct e; [destruct (idx own 0) | | destruct (find_biggest_same own l) as [vv [er|]]]; inversion G; subst;
+          unfold vcache_set in W; rewrite N.eqb_refl in W; discriminate. }
+  rewrite (gos_cached own c2 node e' v S). reflexivity.
+Qed.
